@@ -1,6 +1,7 @@
 package rules
 
 import (
+	"go/token"
 	"go/types"
 	"strings"
 
@@ -90,6 +91,7 @@ func runC07(c *Ctx) {
 	R.Explanation = "Decides the structural conditions under which names resolve to the latest definition, per connection, for every history and schedule: (R1) each connection's caches come from factory calls made in serve, the default factories and Set/Bind allocate fresh objects, no package-level variable and no field of the shared Server holds statements, portals or caches, and connection code never stores into the Server; " +
 		"(R2) Statement and Portal fields are written only while the object is being constructed (immutability after publication), Set stores a new Statement on every call - so a portal keeps the definition it was bound to even if the name is parsed again; (R3) Set/Bind update the map under the given name on every successful path without an existence test (re-use replaces), Get/Execute look the given name up; " +
 		"(R4) Execute invokes the function, columns, formats and parameters of the single portal it looked up; Describe-portal uses that portal's formats and its statement's columns; (R5) the wire fields reach the right sinks (Bind: portal name, statement name; Parse: name, query; Execute/Describe: name). (R6) Close must remove the name - open known finding: no removal operation exists. Not decided: user-supplied caches."
+	R.Explanation += " (R6, beyond the open finding) removals from the cache maps are reachable only through the Close arm of handleCommand, the maps are replaced only by the nil-guarded lazy initialisation, updates happen only in Set / Bind, and a cache operation keyed by the Close message's name is applied to the cache of the message's own kind ('S' / 'P' name spaces are separate)."
 	R.Trusted = []string{"go/types + go/ssa"}
 	guarded := map[string]bool{"Statement": true, "Portal": true, "PreparedStatement": true, "StatementCache": true, "PortalCache": true, "DefaultStatementCache": true, "DefaultPortalCache": true, "Parameter": true}
 
@@ -199,22 +201,58 @@ func runC07(c *Ctx) {
 			continue
 		}
 		R.Analysed(fname(fn))
-		var upd *ssa.MapUpdate
-		for _, b := range fn.Blocks {
-			for _, in := range b.Instrs {
-				if mu, ok := in.(*ssa.MapUpdate); ok {
-					if _, p := pathOf(mu.Map); p == "."+cf.mapField {
-						upd = mu
+		// the update: in the method itself, or in a helper method of the cache that receives key and value as parameters
+		var upd ssa.Instruction
+		var updKey, updVal ssa.Value
+		findUpdate := func(f *ssa.Function) *ssa.MapUpdate {
+			for _, b := range f.Blocks {
+				for _, in := range b.Instrs {
+					if mu, ok := in.(*ssa.MapUpdate); ok {
+						if _, p := pathOf(mu.Map); p == "."+cf.mapField {
+							return mu
+						}
 					}
+				}
+			}
+			return nil
+		}
+		if mu := findUpdate(fn); mu != nil {
+			upd, updKey, updVal = mu, mu.Key, mu.Value
+		} else {
+			for _, ci := range core.Calls(fn) {
+				h := core.StaticCallee(ci)
+				if h == nil || h.Signature.Recv() == nil || h.Blocks == nil || !types.Identical(h.Signature.Recv().Type(), fn.Signature.Recv().Type()) {
+					continue
+				}
+				mu := findUpdate(h)
+				if mu == nil {
+					continue
+				}
+				dominatesAll := true
+				for _, r := range returns(h) {
+					if !core.InstrDominates(mu, r) {
+						dominatesAll = false
+					}
+				}
+				arg := func(v ssa.Value) ssa.Value {
+					for i, p := range h.Params {
+						if ssa.Value(p) == v && i < len(ci.Common().Args) {
+							return ci.Common().Args[i]
+						}
+					}
+					return nil
+				}
+				if dominatesAll {
+					upd, updKey, updVal = ci, arg(mu.Key), arg(mu.Value)
 				}
 			}
 		}
 		if upd == nil {
-			R.Fail("C07.R3", cf.typ+"."+cf.method+":map-update", c.atFn(fn), cf.method+" stores the definition under the given name", "no update of the "+cf.mapField+" map")
+			R.Fail("C07.R3", cf.typ+"."+cf.method+":map-update", c.atFn(fn), cf.method+" stores the definition under the given name", "no update of the "+cf.mapField+" map (in the method or in a helper of the cache that always performs it)")
 			continue
 		}
 		nameParam := fn.Params[2]
-		R.Check(upd.Key == ssa.Value(nameParam), "C07.R3", cf.typ+"."+cf.method+":key-is-name", c.at(upd), "the definition is stored under exactly the name given", "map key is the name parameter", "the map key is not the name parameter")
+		R.Check(updKey == ssa.Value(nameParam), "C07.R3", cf.typ+"."+cf.method+":key-is-name", c.at(upd), "the definition is stored under exactly the name given", "map key is the name parameter", "the map key is not the name parameter")
 		okAll := true
 		for _, r := range returns(fn) {
 			if r.Block() == fn.Recover {
@@ -227,7 +265,7 @@ func runC07(c *Ctx) {
 		}
 		R.Check(okAll, "C07.R3", cf.typ+"."+cf.method+":always-replaces", c.at(upd), "every successful "+cf.method+" (re)defines the name - an existing definition is replaced, never kept", "the map update dominates every return that may be nil", "a successful return is reachable without the map update (e.g. guarded by an existence test)")
 		// the value stored is a fresh object
-		a, fresh := upd.Value.(*ssa.Alloc)
+		a, fresh := updVal.(*ssa.Alloc)
 		R.Check(fresh && a.Heap, "C07.R3", cf.typ+"."+cf.method+":fresh-definition", c.at(upd), "each definition is a new object (earlier portals keep the object they were bound to)", "the stored value is allocated in this call", "the stored value is not a fresh allocation")
 	}
 	for _, cf := range []cacheFn{{"DefaultStatementCache", "Get", "statements"}, {"DefaultPortalCache", "Get", "portals"}, {"DefaultPortalCache", "Execute", "portals"}} {
@@ -388,6 +426,74 @@ func runC07(c *Ctx) {
 			}
 		}
 	}
+	// who may forget or rebind a name: a bound name stays resolvable until Close (or a re-definition through
+	// Set / Bind). Removals are reachable only through the Close arm; the maps are replaced only by the lazy
+	// nil-guarded initialisation; updates happen only in the designated Set / Bind methods.
+	nonClose := c.reachOutsideArm('C')
+	nMut := 0
+	for _, fn := range c.P.ScopeFuncs() {
+		for _, b := range fn.Blocks {
+			for _, in := range b.Instrs {
+				switch v := in.(type) {
+				case ssa.CallInstruction:
+					bn := core.BuiltinName(v.Common())
+					if bn != "delete" && bn != "clear" {
+						continue
+					}
+					_, p := pathOf(v.Common().Args[0])
+					if !strings.HasSuffix(p, ".statements") && !strings.HasSuffix(p, ".portals") {
+						continue
+					}
+					nMut++
+					host := fn
+					for host.Parent() != nil {
+						host = host.Parent()
+					}
+					R.Check(!nonClose[host], "C07.R6", fkey(fn)+":removal-outside-Close:"+bn+p, c.at(in), "a statement / portal name is removed only when the client closes it", "the removal is reachable only through the Close arm of handleCommand", bn+"() on "+p+" in "+fname(fn)+" is reachable from a message other than Close: a bound name silently becomes unresolvable (a later Execute / Describe of that portal fails)")
+				case *ssa.Store:
+					fr, ok := core.FieldOfAddr(v.Addr)
+					if !ok || !(fr.Is(pkWire, "DefaultStatementCache", "statements") || fr.Is(pkWire, "DefaultPortalCache", "portals")) {
+						continue
+					}
+					nMut++
+					lazy := false
+					for _, b2 := range fn.Blocks {
+						for _, i2 := range b2.Instrs {
+							if cmp, isCmp := i2.(*ssa.BinOp); isCmp {
+								if x, _, isNil := core.NilTest(cmp); isNil {
+									if f2, ok2 := core.FieldOfValue(x); ok2 && f2.Name == fr.Name && f2.Struct == fr.Struct && anyDominates(nilEdges(x, true), b) {
+										lazy = true
+									}
+								}
+							}
+						}
+					}
+					R.Check(lazy, "C07.R6", fkey(fn)+":map-replaced:"+fr.Name, c.at(in), "the cache map is created once (lazily, while it is nil) and never replaced", "the store is dominated by the map == nil edge", "the "+fr.Name+" map is replaced in "+fname(fn)+": every name defined so far becomes unresolvable")
+				case *ssa.MapUpdate:
+					_, p := pathOf(v.Map)
+					var arm byte
+					var armName string
+					switch {
+					case strings.HasSuffix(p, ".statements"):
+						arm, armName = 'P', "Parse"
+					case strings.HasSuffix(p, ".portals"):
+						arm, armName = 'B', "Bind"
+					default:
+						continue
+					}
+					nMut++
+					host := fn
+					for host.Parent() != nil {
+						host = host.Parent()
+					}
+					R.Check(!c.reachOutsideArm(arm)[host], "C07.R6", fkey(fn)+":map-update"+p, c.at(in), "a name is (re)defined only by a "+armName+" message", "the update is reachable only through the "+armName+" arm of handleCommand", "the map "+p+" is updated in "+fname(fn)+", which is reachable from a message other than "+armName+": a name can change what it resolves to without a "+armName+" of that name")
+				}
+			}
+		}
+	}
+	R.Floor("C07.R6", "mutation sites of the cache maps (updates, lazy initialisations, removals)", nMut, 4)
+	// a portal is not removed under the name of a statement (the two name spaces are separate)
+	c.c07CloseKinds()
 	R.Check(removal, "C07.R6", "Close:no-removal", "-", "Close makes the statement / portal name unresolvable (a removal from the cache map is reachable from the Close arm)", "a delete on the cache maps exists", "no delete() on the statement or portal map exists anywhere in the library and the Close arm reads no name: Close is acknowledged but removes nothing")
 }
 
@@ -454,4 +560,154 @@ func (c *Ctx) cacheLookup(fn *ssa.Function, mapField string, depth int) (key, va
 		return call.Call.Args[pi], resultOf(call, ri), call, true
 	}
 	return nil, nil, nil, false
+}
+
+// reachOutsideArm returns the functions reachable (CHA) from serve without passing through the
+// handleCommand arm of client message type arm.
+func (c *Ctx) reachOutsideArm(arm byte) map[*ssa.Function]bool {
+	if c.armReach == nil {
+		c.armReach = map[byte]map[*ssa.Function]bool{}
+	}
+	if m, ok := c.armReach[arm]; ok {
+		return m
+	}
+	m := c.reachOutsideArm0(arm)
+	c.armReach[arm] = m
+	return m
+}
+
+func (c *Ctx) reachOutsideArm0(arm byte) map[*ssa.Function]bool {
+	hc := c.P.Method("wire", "Session", "handleCommand")
+	skip := map[*ssa.BasicBlock]bool{}
+	if hc != nil {
+		for _, p := range hc.Params {
+			if !core.IsNamed(p.Type(), pkTypes, "ClientMessage") {
+				continue
+			}
+			for _, e := range constEqEdges(p, int64(arm), true) {
+				for _, b := range hc.Blocks {
+					if e.dominates(b) {
+						skip[b] = true
+					}
+				}
+			}
+		}
+	}
+	out := map[*ssa.Function]bool{}
+	cg := c.P.CHA()
+	var walk func(fn *ssa.Function)
+	walk = func(fn *ssa.Function) {
+		if fn == nil || out[fn] || !c.P.InScope(fn) {
+			return
+		}
+		out[fn] = true
+		n := cg.Nodes[fn]
+		if n == nil {
+			return
+		}
+		for _, e := range n.Out {
+			if e.Site != nil && skip[e.Site.Block()] {
+				continue
+			}
+			walk(e.Callee.Func)
+		}
+	}
+	walk(c.P.Method("wire", "Server", "serve"))
+	return out
+}
+
+// c07CloseKinds: in the function that dispatches on the Close message's kind byte ('S' / 'P'), a call
+// that carries the message's name and a portal-cache operand is not made on the statement edge (and
+// vice versa): that would remove the portal that happens to share the statement's name.
+func (c *Ctx) c07CloseKinds() {
+	R := c.R
+	hc := c.P.Method("wire", "Session", "handleCommand")
+	if hc == nil {
+		return
+	}
+	kindOf := func(ci ssa.CallInstruction) string {
+		vals := append([]ssa.Value{}, ci.Common().Args...)
+		if ci.Common().IsInvoke() {
+			vals = append(vals, ci.Common().Value)
+		}
+		for _, a := range vals {
+			x := core.Strip(a)
+			for {
+				if mi, ok := x.(*ssa.MakeInterface); ok {
+					x = core.Strip(mi.X)
+					continue
+				}
+				if ci2, ok := x.(*ssa.ChangeInterface); ok {
+					x = core.Strip(ci2.X)
+					continue
+				}
+				break
+			}
+			if core.IsNamed(x.Type(), pkWire, "PortalCache") || core.IsNamed(x.Type(), pkWire, "DefaultPortalCache") {
+				return "P"
+			}
+			if core.IsNamed(x.Type(), pkWire, "StatementCache") || core.IsNamed(x.Type(), pkWire, "DefaultStatementCache") {
+				return "S"
+			}
+		}
+		return ""
+	}
+	for _, fn := range c.P.ScopeFuncs() {
+		if !c.P.InPkg(fn, "wire") || fn == hc {
+			continue
+		}
+		// functions that compare a message byte with both 'S' and 'P' and are reached from the Close arm only
+		var names []ssa.Value
+		for _, ci := range core.Calls(fn) {
+			if isReaderMethod(ci, "GetString") {
+				if call, ok := ci.(*ssa.Call); ok {
+					names = append(names, resultOf(call, 0))
+				}
+			}
+		}
+		if len(names) == 0 {
+			continue
+		}
+		edgesOf := map[string][]edge{}
+		for _, b := range fn.Blocks {
+			for _, in := range b.Instrs {
+				cmp, ok := in.(*ssa.BinOp)
+				if !ok || cmp.Op != token.EQL {
+					continue
+				}
+				for _, k := range []byte{'S', 'P'} {
+					if kv, ok := core.ConstInt(cmp.Y); ok && kv == int64(k) {
+						edgesOf[string(k)] = append(edgesOf[string(k)], constEqEdges(cmp.X, int64(k), true)...)
+					}
+				}
+			}
+		}
+		if len(edgesOf["S"]) == 0 || len(edgesOf["P"]) == 0 {
+			continue
+		}
+		if c.reachOutsideArm('C')[fn] {
+			continue // Describe also dispatches on 'S' / 'P'
+		}
+		for _, ci := range core.Calls(fn) {
+			k := kindOf(ci)
+			if k == "" {
+				continue
+			}
+			carries := false
+			for _, a := range ci.Common().Args {
+				for _, n := range names {
+					if a == n {
+						carries = true
+					}
+				}
+			}
+			if !carries {
+				continue
+			}
+			other := map[string]string{"S": "P", "P": "S"}[k]
+			wrong := anyDominates(edgesOf[other], ci.Block()) && !anyDominates(edgesOf[k], ci.Block())
+			what := map[string]string{"S": "statement", "P": "portal"}
+			R.Check(!wrong, "C07.R6", fkey(fn)+":close-kind:"+callDescr(ci), c.at(ci), "Close of a "+what[other]+" does not touch the "+what[k]+" that happens to have the same name (separate name spaces)", "the "+what[k]+"-cache operation keyed by the message's name is not on the '"+other+"' edge", callDescr(ci)+" applies the Close message's name to the "+what[k]+" cache on the '"+other+"' (close "+what[other]+") edge: an unrelated "+what[k]+" of the same name is removed")
+		}
+	}
 }
